@@ -71,9 +71,10 @@ Definition big_frame (p : Z * Z) : bytes := [84; 83; 84; 65] ++ le_bytes 4 (snd 
 Definition len_fp (f : bytes) : Z * Z := (blen f, fingerprint f).
 Definition prop_big (c : Z * list (Z * Z) * list (Z * Z) * (list (Z * Z) * Z * Z) * (list (Z * Z) * Z)) : bool :=
   let '(max, specs, lens, obs, pobs) := c in
-  let expected := map (fun p => len_fp (big_frame p)) specs in
+  let frames := map big_frame specs in
+  let expected := map len_fp frames in
   let '(od, obl, ocode) := obs in
-  forallb (fun p => frame_okb max (big_frame p)) specs
+  forallb (frame_okb max) frames
   && eqb_list eqb_zz od expected && (obl =? 0) && (ocode =? 0)
   && eqb_list eqb_zz (fst pobs) expected && (snd pobs =? 0).
 Definition pf_big := Eval vm_compute in failing prop_big cases_big.
